@@ -274,6 +274,14 @@ def load_known():
     return json.load(open(path))['findings']
 
 
+def load_regressions(pid):
+    """sessions that exposed defects since repaired: a corpus that runs first, suppresses nothing"""
+    path = os.path.join(VERIF, 'known_findings.json')
+    if not os.path.exists(path):
+        return []
+    return json.load(open(path)).get('regression_sessions', {}).get(pid, [])
+
+
 def finding_matches(finding, failure):
     sig = finding.get('signature', {})
     if 'class_prefix' in sig:
